@@ -183,7 +183,7 @@ func (h *v16) onAnswer(a vAnswer) vReply {
 	s.mu.Unlock()
 	defer s.ansOnce.Do(func() { close(s.answered) })
 	switch s.kind {
-	case "normal", "relay-down", "relay-closes", "never-open", "late-open", "probe":
+	case "normal", "relay-down", "relay-closes", "never-open", "connected-no-channel", "late-open", "probe":
 		return vReply{200, []byte(`{"Status":"success"}`)}
 	case "answer-refused":
 		switch s.variant {
@@ -698,6 +698,9 @@ func (h *v16) runStep(st *v16Step) {
 		}
 		s.peer.close("pc")
 
+	case "connected-no-channel":
+		h.stepConnectedNoChannel(st, p, overlap)
+
 	case "never-open":
 		s := h.newSess(st, true)
 		if s == nil {
@@ -858,6 +861,84 @@ func (h *v16) establish(s *v16Sess, st *v16Step) bool {
 	h.res.Obs("sessions_established", 1)
 	h.logf("session %d established (%d open, capacity %d)", s.idx, n, h.cap)
 	return true
+}
+
+// stepConnectedNoChannel: the client applies the answer at once, so ICE, DTLS
+// and SCTP come up, but its only data channel is pre-negotiated and nothing is
+// ever announced to the proxy. That is the exit path "client never opening the
+// data channel": the proxy must give the session up after its 20 s data
+// channel timeout and release the slot. The timeout branch is witnessed by its
+// hook; a proxy that leaves runSession any other way is judged at the next
+// quiescent point by the slot accounting.
+func (h *v16) stepConnectedNoChannel(st *v16Step, p *vPoll, overlap int) {
+	s := h.newSess(st, false)
+	peer, err := vNewPeerNegotiated()
+	if err != nil {
+		h.res.Inconcl("harness peer could not be created: " + err.Error())
+		p.replyNoMatch()
+		return
+	}
+	s.peer = peer
+	s.relayURL = h.relayURLFor(s, "echo")
+	h.register(s, p.Sid)
+	before := verifhook.Hits(v16HookTimeout)
+	onDCBefore := verifhook.Hits(v16HookOnDC)
+	p.reply(200, vMatchBody(s.peer.offer, s.relayURL))
+	h.addRecent("connected-no-channel")
+	if !s.waitAnswered(20 * time.Second) {
+		h.res.Inconcl(fmt.Sprintf("step %d: the proxy posted no answer within 20 s", st.Idx))
+		s.peer.close("pc")
+		return
+	}
+	s.mu.Lock()
+	ans := s.answer
+	s.mu.Unlock()
+	if err := s.peer.applyAnswer(ans); err != nil || !s.peer.waitConnected(15*time.Second) {
+		h.res.Inconcl(fmt.Sprintf("step %d: the harness peer did not reach the connected state within 15 s (%v)", st.Idx, err))
+		s.peer.close("pc")
+		return
+	}
+	h.res.Obs("connected_no_channel_transports_connected", 1)
+	h.logf("connected-no-channel: transport connected, no channel announced; waiting for the proxy's timeout")
+	// ends when the timeout branch is reached, or when the main loop is seen
+	// to have left runSession some other way (next poll, or a dump)
+	witnessed, left := false, false
+	deadline := time.Now().Add(45 * time.Second)
+	lastDump := time.Now()
+	for time.Now().Before(deadline) {
+		if verifhook.Hits(v16HookTimeout) > before {
+			witnessed = true
+			break
+		}
+		if len(h.br.polls) > 0 {
+			left = true
+			break
+		}
+		if time.Since(lastDump) > 2*time.Second {
+			lastDump = time.Now()
+			if d := vAnalyze(); d.MainWhere != "runSession" {
+				left = true
+				break
+			}
+		}
+		time.Sleep(50 * time.Millisecond)
+	}
+	if verifhook.Hits(v16HookOnDC) > onDCBefore {
+		h.res.Obs("connected_no_channel_but_ondatachannel_fired", 1) // the trigger was not what it claims to be
+	}
+	switch {
+	case witnessed:
+		h.res.Obs("datachannel_timeouts_observed", 1)
+		h.res.Obs("connected_no_channel_timeouts_observed", 1)
+		h.stepDone(st, overlap)
+	case left:
+		h.res.Obs("connected_no_channel_sessions_left_without_timeout", 1)
+		h.logf("connected-no-channel: the proxy left runSession without reaching its data channel timeout")
+		h.stepDone(st, overlap)
+	default:
+		h.res.Inconcl(fmt.Sprintf("step %d: neither the data channel timeout nor the end of runSession was seen within 45 s", st.Idx))
+	}
+	s.peer.close("pc")
 }
 
 // stepLateOpen steers the window predicted in DESIGN §5: the 20 s timer has
@@ -1136,8 +1217,9 @@ func v16Plan(shard, nshards int, r *vlib.Rand) (int, bool, []*v16Step) {
 	kinds = kinds[:n]
 	// the two 20 s outcomes: fixed shards in the quick tier, twice each per shard in thorough
 	if vlib.Thorough() {
-		for _, k := range []string{"late-open", "never-open", "late-open", "never-open"} {
-			kinds[r.Intn(n)] = k
+		forced := []string{"late-open", "never-open", "connected-no-channel", "late-open", "never-open", "connected-no-channel"}
+		for j, i := range r.Perm(n)[:len(forced)] {
+			kinds[i] = forced[j]
 		}
 	} else {
 		switch shard % 12 {
@@ -1147,6 +1229,8 @@ func v16Plan(shard, nshards int, r *vlib.Rand) (int, bool, []*v16Step) {
 			kinds[0], kinds[1] = "normal", "late-open"
 		case 4, 5:
 			kinds[r.Range(0, n-1)] = "never-open"
+		case 3, 10, 11: // capacities 4, 3 and 1 (the last one wss-only); these shards have no other 20 s outcome
+			kinds[r.Range(0, n-1)] = "connected-no-channel"
 		}
 	}
 	// wss-only shards: the scheme sub-class of "rejected relay URL" at least
@@ -1156,7 +1240,7 @@ func v16Plan(shard, nshards int, r *vlib.Rand) (int, bool, []*v16Step) {
 		for want := vlib.Scale(1, 3); want > 0; want-- {
 			for try := 0; try < 50; try++ {
 				i := r.Intn(n)
-				if kinds[i] != "late-open" && kinds[i] != "never-open" && !forcedScheme[i] {
+				if kinds[i] != "late-open" && kinds[i] != "never-open" && kinds[i] != "connected-no-channel" && !forcedScheme[i] {
 					kinds[i] = "bad-relay"
 					forcedScheme[i] = true
 					break
@@ -1223,7 +1307,7 @@ func v16ParseScript(spec string, r *vlib.Rand) (int, bool, []*v16Step) {
 // ---- the test -------------------------------------------------------------------------------------
 
 func TestVerifC16(t *testing.T) {
-	res := vlib.NewResult("C16", "inpkg-proxy-c16", "per shard one real SnowflakeProxy (capacity 1..4, 9, 17) driven by a scripted broker, real pion client peers and a WebSocket relay through a PRNG script of session outcomes (idle, no offer x6, undecodable offer x8, rejected relay URL x12 in three sub-classes (host outside the pattern / allowed host with a non-wss scheme on proxies with AllowNonTLSRelay=false, whose relay runs behind TLS / unparsable), refused answer x4, data channel never opened, data channel opened while the 20 s timeout branch runs (hook-steered), relay unreachable, relay closes x2, normal end x3, overlapping up to the capacity), then N simultaneous sessions and Stop; every poll is a held quiescent point where slots in use are compared with 1 + sessions proven in progress by end-to-end echo and classified with a goroutine dump; non-trivial = outcome executed to its expected exit, distinct by (capacity, outcome, variant, close mode, sessions open at hand-out)")
+	res := vlib.NewResult("C16", "inpkg-proxy-c16", "per shard one real SnowflakeProxy (capacity 1..4, 9, 17) driven by a scripted broker, real pion client peers and a WebSocket relay through a PRNG script of session outcomes (idle, no offer x6, undecodable offer x8, rejected relay URL x12 in three sub-classes (host outside the pattern / allowed host with a non-wss scheme on proxies with AllowNonTLSRelay=false, whose relay runs behind TLS / unparsable), refused answer x4, data channel never opened (client never connects / client connects, ICE+DTLS+SCTP up, but announces no channel), data channel opened while the 20 s timeout branch runs (hook-steered), relay unreachable, relay closes x2, normal end x3, overlapping up to the capacity), then N simultaneous sessions and Stop; every poll is a held quiescent point where slots in use are compared with 1 + sessions proven in progress by end-to-end echo and classified with a goroutine dump; non-trivial = outcome executed to its expected exit, distinct by (capacity, outcome, variant, close mode, sessions open at hand-out)")
 	defer res.Finish()
 	shard, nshards := vlib.Shard()
 	root := vlib.NewRand(vlib.Seed()).Split("c16").SplitN("shard", shard)
@@ -1303,6 +1387,9 @@ func TestVerifC16(t *testing.T) {
 	}
 	if planned["late-open"] > 0 {
 		res.RequireObs("steered_window_hits", int64(planned["late-open"]))
+	}
+	if n := planned["connected-no-channel"]; n > 0 {
+		res.RequireObs("connected_no_channel_transports_connected", int64(n))
 	}
 	if plannedScheme > 0 {
 		res.RequireObs("outcome_bad-relay-scheme", int64(plannedScheme))
